@@ -895,7 +895,7 @@ static const ebase BASES[] = {
 };
 #define NBASES ((int) (sizeof BASES / sizeof BASES[0]))
 static etok EQ[40], ER[40]; static int NEQ, NER;
-static hx_cfgspec ECFG; static int EDEVS;
+static hx_cfgspec ECFG; static int EDEVS, EFAULTS; static long n_faultexec;
 /* the configuration menu of statemc (same indices) */
 static void edits_cfg_menu(int idx, hx_cfgspec *c) {
     hx_cfgspec_default(c);
@@ -917,7 +917,8 @@ static void edits_schedules(int P) {
      * a preemption switches away from a direction that still has tokens */
     int m = NEQ, n = NER;
     /* P >= 0: Q all, R all.  P >= 1: Q[0,i) R all Q[i,m)  and  R[0,j) Q all R[j,n).  P >= 2: Q[0,i) R[0,j) Q[i,m) R[j,n) and the mirror */
-    for (int form = 0; form < (P >= 2 ? 5 : P >= 1 ? 3 : 1); form++) {
+    for (int form = 0; form < 7; form++) {
+        if (form < 5 && form >= (P >= 2 ? 5 : P >= 1 ? 3 : 1)) continue;
         int imax = (form == 1 || form == 3) ? m : (form == 2 || form == 4) ? n : 1;
         for (int i = (form == 0 ? 0 : 0); i < imax + (form == 0 ? 0 : 0); i++) {
             int jmax = form == 3 ? n : form == 4 ? m : 1;
@@ -929,6 +930,11 @@ static void edits_schedules(int P) {
 #define ADDR(a, b) for (int k_ = (a); k_ < (b); k_++) hx_script_add(&S, ER[k_].gap ? OP_SG : OP_S, ER[k_].gap ? NULL : ER[k_].d, ER[k_].n)
                 switch (form) {
                     case 0: ADDQ(0, m); ADDR(0, n); break;
+                    case 5: case 6: {      /* the default schedule again, every token delivered 1 (form 5) or 3 (form 6) bytes at a time */
+                        uint32_t step = form == 5 ? 1 : 3;
+                        for (int k_ = 0; k_ < m; k_++) { if (EQ[k_].gap) hx_script_add(&S, OP_QG, NULL, EQ[k_].n); else for (uint32_t o_ = 0; o_ < EQ[k_].n; o_ += step) hx_script_add(&S, OP_Q, EQ[k_].d + o_, EQ[k_].n - o_ < step ? EQ[k_].n - o_ : step); }
+                        for (int k_ = 0; k_ < n; k_++) { if (ER[k_].gap) hx_script_add(&S, OP_SG, NULL, ER[k_].n); else for (uint32_t o_ = 0; o_ < ER[k_].n; o_ += step) hx_script_add(&S, OP_S, ER[k_].d + o_, ER[k_].n - o_ < step ? ER[k_].n - o_ : step); }
+                        break; }
                     case 1: ADDQ(0, i); ADDR(0, n); ADDQ(i, m); break;
                     case 2: ADDR(0, i); ADDQ(0, m); ADDR(i, n); break;
                     case 3: ADDQ(0, i); ADDR(0, j); ADDQ(i, m); ADDR(j, n); break;
@@ -939,6 +945,21 @@ static void edits_schedules(int P) {
                 if (hx_run(&S, &O)) continue;
                 n_exec++; edit_execs++; n_calls += O.ncalls; cx_set_add(&outcomes, hx_fnv(O.cbtrace.p, O.cbtrace.n, (uint64_t) O.final_in_status * 16 + (uint64_t) O.final_out_status));
                 hx_report_verdicts(&S, &O, PROPS);
+                if (EFAULTS) {
+                    /* every allocation of this very execution fails in turn (C18): no sanitizer report, every call returns, the API contract holds */
+                    int N = O.allocs_in_lib;
+                    for (int k = 1; k <= N; k++) {
+                        S.nfault = 1; S.fault[0] = k;
+                        if (hx_run(&S, &O)) continue;
+                        n_exec++; n_faultexec++; n_calls += O.ncalls; cx_set_add(&outcomes, hx_fnv(O.cbtrace.p, O.cbtrace.n, (uint64_t) k));
+                        for (int vi = 0; vi < O.nverdict; vi++) if (!strcmp(O.v[vi].prop, "C09")) {
+                            char kind[96], msg[500]; snprintf(kind, sizeof kind, "api_after_fault:%s", O.v[vi].kind);
+                            snprintf(msg, sizeof msg, "%s with allocation %d failing: %s", edit_desc, k, O.v[vi].msg);
+                            hx_emit_script_violation("C18", kind, msg, &S, &O);
+                        }
+                    }
+                    S.nfault = 0;
+                }
                 if (EDEVS) {
                     /* one callback deviation per execution: the n-th callback of this very schedule answers DECLINED / STOP / ERROR */
                     static const uint8_t ACTS[] = { CBA_DECLINED, CBA_STOP, CBA_ERROR };
@@ -1006,7 +1027,7 @@ static void mode_edits(int argc, char **argv) {
     int thorough = !strcmp(hx_tier, "thorough");
     int E = atoi(hx_arg(argc, argv, "--edits", thorough ? "2" : "1")), P = atoi(hx_arg(argc, argv, "--preempt", thorough ? "2" : "1"));
     int cfgi = atoi(hx_arg(argc, argv, "--cfg", "0"));
-    edits_cfg_menu(cfgi, &ECFG); EDEVS = atoi(hx_arg(argc, argv, "--devs", "0"));
+    edits_cfg_menu(cfgi, &ECFG); EDEVS = atoi(hx_arg(argc, argv, "--devs", "0")); EFAULTS = atoi(hx_arg(argc, argv, "--faults", "0"));
     int maxbase = atoi(hx_arg(argc, argv, "--maxbase", "1000"));           /* only the first N bases (the deviation product is large) */
     for (int b = 0; b < NBASES && b < maxbase; b++) {
         load_base(&BASES[b]);
@@ -1014,7 +1035,7 @@ static void mode_edits(int argc, char **argv) {
         int e1q = n_edits_of(nq0, NQP), e1r = n_edits_of(nr0, NRP);
         /* 0 edits */
         if (edit_counter++ % hx_shard_n == hx_shard_i) { snprintf(edit_desc, sizeof edit_desc, "base \"%s\", no edit", BASES[b].name); edits_schedules(P); }
-        for (int e1 = 0; e1 < e1q + e1r; e1++) {
+        for (int e1 = 0; e1 < (E >= 1 ? e1q + e1r : 0); e1++) {
             if (edit_counter++ % hx_shard_n != hx_shard_i && E < 2) continue;
             int mine = ((edit_counter - 1) % hx_shard_n == hx_shard_i);
             load_base(&BASES[b]);
@@ -1035,7 +1056,7 @@ static void mode_edits(int argc, char **argv) {
             }
         }
     }
-    hx_emit_stat("edit_histories", hx_shard_i == 0 ? edit_counter : 0); hx_emit_stat("callback_deviation_executions", n_devexec);
+    hx_emit_stat("edit_histories", hx_shard_i == 0 ? edit_counter : 0); hx_emit_stat("callback_deviation_executions", n_devexec); if (EFAULTS) hx_emit_stat("fault_executions", n_faultexec);
     hx_emit_sample("base \"CONNECT refused 407\" with one token-level edit (insert / delete / duplicate / replace / truncate / gap) under every schedule with <= 1 preemption");
 }
 
